@@ -32,29 +32,32 @@ Proof.
     split; [intros ->; lia|]. split; [intros ->; lia|]. right. unfold is_dig, in_ranges. cbn. rewrite orb_false_r. apply andb_true_iff. split; apply N.leb_le; assumption.
 Qed.
 
-Lemma ev_tail_star body t pos : forallb (fun x => in_ranges x num_tail) body = true ->
-  evG (PStar (PCls false num_tail)) (body ++ 41 :: t) pos (POk (41 :: t) (pos + List.length body) []).
+Lemma qend_not_tail c : qend c -> in_ranges c num_tail = false.
+Proof. intros [E|[E|E]]; subst c; reflexivity. Qed.
+
+Lemma ev_tail_star body c t pos : qend c -> forallb (fun x => in_ranges x num_tail) body = true ->
+  evG (PStar (PCls false num_tail)) (body ++ c :: t) pos (POk (c :: t) (pos + List.length body) []).
 Proof.
-  revert pos. induction body as [|x r IH]; intros pos Hb.
-  - cbn [app List.length]. eapply ev_conv; [apply ev_star_stop; apply ev_cls_fail; reflexivity|f_equal; lia].
+  intros Hq. revert pos. induction body as [|x r IH]; intros pos Hb.
+  - cbn [app List.length]. eapply ev_conv; [apply ev_star_stop; apply ev_cls_fail; rewrite Bool.xorb_false_l; apply qend_not_tail; exact Hq|f_equal; lia].
   - cbn [forallb] in Hb. apply andb_true_iff in Hb. destruct Hb as [H1 H2]. cbn [app].
-    pose proof (ev_star_step G (PCls false num_tail) (x :: r ++ 41 :: t) pos _ (S pos) [] _ _ [] (ev_cls_ok G false num_tail x _ pos (eq_trans (Bool.xorb_false_l _) H1)) ltac:(lia) (IH (S pos) H2)) as E.
+    pose proof (ev_star_step G (PCls false num_tail) (x :: r ++ c :: t) pos _ (S pos) [] _ _ [] (ev_cls_ok G false num_tail x _ pos (eq_trans (Bool.xorb_false_l _) H1)) ltac:(lia) (IH (S pos) H2)) as E.
     eapply ev_conv; [exact E|]. f_equal. cbn [List.length]. lia.
 Qed.
 
-Lemma ev_rule45_lit lit t pos : lit_ok lit = true ->
-  evG (PRef 45) (lit ++ 41 :: t) pos (POk (41 :: t) (pos + List.length lit) [TText pos (pos + List.length lit); TAct 40]).
+Lemma ev_rule45_lit lit c t pos : qend c -> lit_ok lit = true ->
+  evG (PRef 45) (lit ++ c :: t) pos (POk (c :: t) (pos + List.length lit) [TText pos (pos + List.length lit); TAct 40]).
 Proof.
-  intros H. destruct lit as [|c r]; [discriminate|]. cbn [lit_ok] in H. destruct (is_sign c) eqn:Es.
+  intros Hq H. destruct lit as [|c0 r]; [discriminate|]. cbn [lit_ok] in H. destruct (is_sign c0) eqn:Es.
   - destruct r as [|d body]; [discriminate|]. apply andb_true_iff in H. destruct H as [Hd Hb]. eapply ev_conv.
     + eapply ev_ref; [reflexivity|]. eapply ev_seq_ok; [apply ev_cap| apply ev_act |reflexivity].
       eapply ev_seq_ok; [apply ev_opt_some; apply ev_cls_ok; rewrite Bool.xorb_false_l, sign_ranges; exact Es| |reflexivity].
-      eapply ev_seq_ok; [apply ev_cls_ok; rewrite Bool.xorb_false_l; exact Hd|apply (ev_tail_star body t _ Hb)|reflexivity].
+      eapply ev_seq_ok; [apply ev_cls_ok; rewrite Bool.xorb_false_l; exact Hd|apply (ev_tail_star body c t _ Hq Hb)|reflexivity].
     + cbn [List.length app]. replace (pos + S (S (List.length body)))%nat with (S (S pos) + List.length body)%nat by lia. reflexivity.
   - apply andb_true_iff in H. destruct H as [Hd Hb]. eapply ev_conv.
     + eapply ev_ref; [reflexivity|]. eapply ev_seq_ok; [apply ev_cap| apply ev_act |reflexivity].
       eapply ev_seq_ok; [apply ev_opt_none; apply ev_cls_fail; rewrite Bool.xorb_false_l, sign_ranges; exact Es| |reflexivity].
-      eapply ev_seq_ok; [apply ev_cls_ok; rewrite Bool.xorb_false_l; exact Hd|apply (ev_tail_star r t _ Hb)|reflexivity].
+      eapply ev_seq_ok; [apply ev_cls_ok; rewrite Bool.xorb_false_l; exact Hd|apply (ev_tail_star r c t _ Hq Hb)|reflexivity].
     + cbn [List.length app]. replace (pos + S (List.length r))%nat with (S pos + List.length r)%nat by lia. reflexivity.
 Qed.
 
@@ -102,52 +105,54 @@ Definition cmp39_tokens (pos : nat) (isteps : list rstep) (o : cmpop) (lit : lis
 Section CmpPeg.
   Variable isteps : list rstep.
   Variable lit t : list N.
+  Variable c : N.
+  Hypothesis Hq : qend c.
   Hypothesis Hs : forallb rstep_ok isteps = true.
   Hypothesis Hl : lit_ok lit = true.
   Notation L := (List.length (render_steps isteps)).
 
-  Lemma left40 o pos : evG (PRef 40) (64 :: render_steps isteps ++ op_text o ++ lit ++ 41 :: t) pos
-                           (POk (op_text o ++ lit ++ 41 :: t) (pos + 1 + L) (left43_tokens pos isteps)).
+  Lemma left40 o pos : evG (PRef 40) (64 :: render_steps isteps ++ op_text o ++ lit ++ c :: t) pos
+                           (POk (op_text o ++ lit ++ c :: t) (pos + 1 + L) (left43_tokens pos isteps)).
   Proof.
-    destruct (closer_op o (lit ++ 41 :: t)) as (c & r' & E & Hc). rewrite E.
-    eapply ev_ref; [reflexivity|]. apply ev_alt_r; [apply ev_seq_fail; apply ev_rule42_at|]. apply (ev_rule43_c isteps c r' pos Hs Hc).
+    destruct (closer_op o (lit ++ c :: t)) as (c1 & r' & E & Hc). rewrite E.
+    eapply ev_ref; [reflexivity|]. apply ev_alt_r; [apply ev_seq_fail; apply ev_rule42_at|]. apply (ev_rule43_c isteps c1 r' pos Hs Hc).
   Qed.
-  Lemma left41 o pos : evG (PRef 41) (64 :: render_steps isteps ++ op_text o ++ lit ++ 41 :: t) pos
-                           (POk (op_text o ++ lit ++ 41 :: t) (pos + 1 + L) (left43_tokens pos isteps)).
+  Lemma left41 o pos : evG (PRef 41) (64 :: render_steps isteps ++ op_text o ++ lit ++ c :: t) pos
+                           (POk (op_text o ++ lit ++ c :: t) (pos + 1 + L) (left43_tokens pos isteps)).
   Proof.
-    destruct (closer_op o (lit ++ 41 :: t)) as (c & r' & E & Hc). rewrite E.
-    eapply ev_ref; [reflexivity|]. apply ev_alt_r; [apply ev_seq_fail; apply ev_rule45_at|]. apply (ev_rule43_c isteps c r' pos Hs Hc).
+    destruct (closer_op o (lit ++ c :: t)) as (c1 & r' & E & Hc). rewrite E.
+    eapply ev_ref; [reflexivity|]. apply ev_alt_r; [apply ev_seq_fail; apply ev_rule45_at|]. apply (ev_rule43_c isteps c1 r' pos Hs Hc).
   Qed.
-  Lemma right40 p : evG (PRef 40) (lit ++ 41 :: t) p (POk (41 :: t) (p + List.length lit) [TText p (p + List.length lit); TAct 40; TAct 35]).
+  Lemma right40 p : evG (PRef 40) (lit ++ c :: t) p (POk (c :: t) (p + List.length lit) [TText p (p + List.length lit); TAct 40; TAct 35]).
   Proof.
     eapply ev_conv.
     - eapply ev_ref; [reflexivity|]. apply ev_alt_l. eapply ev_seq_ok; [|apply ev_act|reflexivity].
-      eapply ev_ref; [reflexivity|]. apply ev_alt_l. apply (ev_rule45_lit lit t p Hl).
+      eapply ev_ref; [reflexivity|]. apply ev_alt_l. apply (ev_rule45_lit lit c t p Hq Hl).
     - reflexivity.
   Qed.
-  Lemma right41 p : evG (PRef 41) (lit ++ 41 :: t) p (POk (41 :: t) (p + List.length lit) [TText p (p + List.length lit); TAct 40; TAct 36]).
+  Lemma right41 p : evG (PRef 41) (lit ++ c :: t) p (POk (c :: t) (p + List.length lit) [TText p (p + List.length lit); TAct 40; TAct 36]).
   Proof.
     eapply ev_conv.
-    - eapply ev_ref; [reflexivity|]. apply ev_alt_l. eapply ev_seq_ok; [|apply ev_act|reflexivity]. apply (ev_rule45_lit lit t p Hl).
+    - eapply ev_ref; [reflexivity|]. apply ev_alt_l. eapply ev_seq_ok; [|apply ev_act|reflexivity]. apply (ev_rule45_lit lit c t p Hq Hl).
     - reflexivity.
   Qed.
-  Lemma space_lit p : evG (PRef 58) (lit ++ 41 :: t) p (POk (lit ++ 41 :: t) p []).
-  Proof. destruct (lit_head lit Hl) as (c & r & E & H32 & _). rewrite E. cbn [app]. apply ev_space_stop. exact H32. Qed.
-  Lemma space_op o p : evG (PRef 58) (op_text o ++ lit ++ 41 :: t) p (POk (op_text o ++ lit ++ 41 :: t) p []).
+  Lemma space_lit p : evG (PRef 58) (lit ++ c :: t) p (POk (lit ++ c :: t) p []).
+  Proof. destruct (lit_head lit Hl) as (c1 & r & E & H32 & _). rewrite E. cbn [app]. apply ev_space_stop. exact H32. Qed.
+  Lemma space_op o p : evG (PRef 58) (op_text o ++ lit ++ c :: t) p (POk (op_text o ++ lit ++ c :: t) p []).
   Proof. destruct o; cbn [op_text app]; apply ev_space_stop; discriminate. Qed.
 
   (* a one-character operator is not the two-character one: the literal does not start with = *)
-  Lemma strip_two_no a p : strip_prefix [a; 61] (a :: lit ++ 41 :: p) = None.
+  Lemma strip_two_no a p : strip_prefix [a; 61] (a :: lit ++ c :: p) = None.
   Proof.
-    destruct (lit_head lit Hl) as (c & r & E & _ & H61 & _). rewrite E. cbn [app strip_prefix]. rewrite N.eqb_refl.
-    assert (E2 : (61 =? c) = false) by (apply N.eqb_neq; intros H; apply H61; symmetry; exact H). rewrite E2. reflexivity.
+    destruct (lit_head lit Hl) as (c1 & r & E & _ & H61 & _). rewrite E. cbn [app strip_prefix]. rewrite N.eqb_refl.
+    assert (E2 : (61 =? c1) = false) by (apply N.eqb_neq; intros H; apply H61; symmetry; exact H). rewrite E2. reflexivity.
   Qed.
 
   (* operator, blanks, right operand, action *)
   Lemma op_then_right (ref : nat) (a35 : nat) o p k :
-    (forall q, evG (PRef ref) (lit ++ 41 :: t) q (POk (41 :: t) (q + List.length lit) [TText q (q + List.length lit); TAct 40; TAct a35])) ->
-    evG (PSeq (PLit (op_text o)) (PSeq (PRef 58) (PSeq (PRef ref) (PAct k)))) (op_text o ++ lit ++ 41 :: t) p
-        (POk (41 :: t) (p + List.length (op_text o) + List.length lit)
+    (forall q, evG (PRef ref) (lit ++ c :: t) q (POk (c :: t) (q + List.length lit) [TText q (q + List.length lit); TAct 40; TAct a35])) ->
+    evG (PSeq (PLit (op_text o)) (PSeq (PRef 58) (PSeq (PRef ref) (PAct k)))) (op_text o ++ lit ++ c :: t) p
+        (POk (c :: t) (p + List.length (op_text o) + List.length lit)
              [TText (p + List.length (op_text o)) (p + List.length (op_text o) + List.length lit); TAct 40; TAct a35; TAct k]).
   Proof.
     intros Hr. eapply ev_conv.
@@ -158,14 +163,14 @@ Section CmpPeg.
   Qed.
 
   Theorem ev_rule39_cmp o pos :
-    evG (PRef 39) (64 :: render_steps isteps ++ op_text o ++ lit ++ 41 :: t) pos
-        (POk (41 :: t) (pos + 1 + L + List.length (op_text o) + List.length lit) (cmp39_tokens pos isteps o lit)).
+    evG (PRef 39) (64 :: render_steps isteps ++ op_text o ++ lit ++ c :: t) pos
+        (POk (c :: t) (pos + 1 + L + List.length (op_text o) + List.length lit) (cmp39_tokens pos isteps o lit)).
   Proof.
     unfold cmp39_tokens. cbv zeta.
     assert (A1fail : forall o', (o' = OLt \/ o' = OLe \/ o' = OGt \/ o' = OGe) ->
               evG (PSeq (PRef 40) (PSeq (PRef 58) (PAlt (PSeq (PLit [61; 61]) (PSeq (PRef 58) (PSeq (PRef 40) (PAct 28))))
                                                        (PSeq (PLit [33; 61]) (PSeq (PRef 58) (PSeq (PRef 40) (PAct 29)))))))
-                  (64 :: render_steps isteps ++ op_text o' ++ lit ++ 41 :: t) pos PFail).
+                  (64 :: render_steps isteps ++ op_text o' ++ lit ++ c :: t) pos PFail).
     { intros o' Ho. eapply ev_seq_fail2; [apply left40|]. eapply ev_seq_fail2; [apply space_op|].
       destruct Ho as [E|[E|[E|E]]]; subst o'; cbn [op_text app]; apply ev_alt_r; apply ev_seq_fail; apply (ev_lit_fail G); reflexivity. }
     eapply ev_ref; [reflexivity|]. destruct o.
@@ -275,7 +280,7 @@ Proof.
     eapply ev_conv.
     - eapply ev_ref; [reflexivity|].
       apply ev_alt_r; [apply ev_seq_fail; eapply ev_ref; [reflexivity|]; apply ev_seq_fail; apply (ev_lit_fail G [40]); reflexivity|].
-      apply ev_alt_l. eapply ev_seq_ok; [apply ev_cap; apply (ev_rule39_cmp isteps lit (93 :: r) Hs Hl o (pos + 3))|apply ev_act|reflexivity].
+      apply ev_alt_l. eapply ev_seq_ok; [apply ev_cap; apply (ev_rule39_cmp isteps lit (93 :: r) 41 (or_introl eq_refl) Hs Hl o (pos + 3))|apply ev_act|reflexivity].
     - fold X. rewrite HX.
       replace (pos + 3 + 1 + List.length (render_steps isteps) + List.length (op_text o) + List.length lit)%nat
         with (pos + 3 + (1 + List.length (render_steps isteps) + List.length (op_text o) + List.length lit))%nat by lia.
